@@ -8,3 +8,5 @@ package bloomsearch
 func verifEv(kind string, args ...any) {}
 
 func verifFS(op, path string) {}
+
+func verifPoison(buf []byte) {}
